@@ -866,7 +866,8 @@ LEVEL_TEXT = ('Lean 4 theorems about Model.Tlsh / Model.Nilsimsa (hand-written m
               '(Pearson table, probed triplet generator, probed body-scoring table, minimum lengths, Nilsimsa table) and by a boundary-directed correspondence '
               'stream that also evaluates independent positional references of both algorithms and the distance laws on the real code. A call on a '
               'USED object: in the object model Model.Objects.TlshO the result of __call__ and the state it leaves are those of the first call on a new '
-              'object, from any state / after any history (tlsh_call_ignores_state, tlsh_call_ignores_history; Nilsimsa: nilsimsa_call_ignores_history); '
+              'object, from any state / after any history (tlsh_call_ignores_state, tlsh_call_ignores_history; Nilsimsa: nilsimsa_call_ignores_history), '
+              'and equal the one-shot function Model.Tlsh.tlsh of the call\'s own arguments (tlsh_call_is_oneshot); '
               'the tlsh.calls / nilsimsa.calls lines drive ONE real object (and the module singleton) through histories and compare every call with '
               'the one-shot model, spec and reference digest of its own arguments.')
 LEVEL_NOTE = ('Trusted: Lean kernel; axioms ⊆ {propext, Classical.choice, Quot.sound}; extract.py/runcheck.py/props/C19.py. There is NO executable reference '
